@@ -150,6 +150,8 @@ func (m *Machine) RunCase(fnName string, s *Solver, opts Options) CaseResult {
 		syncMaps = map[*value][]syncMapEntry{}
 		mapOrder = map[uintptr][]value{}
 		symEntries = map[uintptr][]symKV{}
+		mapPad = map[uintptr]*Term{}
+		mapKeep = nil
 		for _, p := range lazyDone {
 			// lazily initialised packages start each path uninitialised again
 			delete(i.allowInit, p)
